@@ -375,12 +375,12 @@ where
                 connack.session_expiry_interval.map(u32::from).unwrap();
         }
 
-        if connack.maximum_packet_size.is_some() {
-            connection.remote_max_packet_size = connack
-                .maximum_packet_size
-                .map(NonZero::from)
-                .map(u32::from);
-        }
+        // The limit belongs to the connection: a CONNACK without the property means "no limit",
+        // whatever an earlier connection of this context announced.
+        connection.remote_max_packet_size = connack
+            .maximum_packet_size
+            .map(NonZero::from)
+            .map(u32::from);
 
         connection.remote_receive_maximum = u16::from(NonZero::from(connack.receive_maximum));
         connection.send_quota = connection.remote_receive_maximum;
